@@ -123,11 +123,15 @@ class SimSocket:
     # -- server side
     def bind(self, addr):
         simrt.cur_sched().yield_point()
+        if self.closed:
+            raise OSError(errno.EBADF, "bad file descriptor")
         self.port = addr[1]
         if self.port in self.net.listeners and not self.net.listeners[self.port].closed:
             raise OSError(errno.EADDRINUSE, "address in use")
 
     def listen(self, backlog=1):
+        if self.closed:
+            raise OSError(errno.EBADF, "bad file descriptor")
         self.listener = Listener()
         self.listener.backlog_size = backlog
         self.net.listeners[self.port] = self.listener
